@@ -23,6 +23,8 @@ pub enum Op {
     /// keep one more clone of child c's waker / drop one of the extra clones
     Wclone { c: u32 },
     Wdrop { c: u32 },
+    /// the child lets go of the waker it kept (drops it without invoking it): it can no longer be woken
+    Forget { c: u32 },
     /// wake the task through the waker that a pending upstream kept
     UpWake,
     /// move the collection value in memory
@@ -96,6 +98,7 @@ pub enum Subject {
     JaP(JoinAll<PFut>),
     TjaP(TryJoinAll<PTry>),
     JaO(JoinAll<OFut>),
+    JaZ(JoinAll<ZFut>),
     TjaO(TryJoinAll<OTry>),
     Tja(TryJoinAll<STry>),
     Dead,
@@ -109,6 +112,8 @@ fn lazy(init: &[u32]) -> impl Iterator<Item = &u32> + '_ {
 }
 
 pub struct Runner {
+    /// the inputs of a join, in order
+    pub inputs: Vec<u32>,
     pub final_wake: bool,
     pub subj: Subject,
     pub kind: String,
@@ -125,6 +130,8 @@ enum PollOut {
     Done,
     Vec(Vec<Token>),
     VecP(Vec<PTok>),
+    /// zero-sized outputs: only the length can be observed (and the inputs they belong to, by position)
+    VecZ(usize),
     Err(Token),
 }
 
@@ -216,6 +223,7 @@ impl Runner {
                     fe_make as FeFn,
                 ))),
                 // (an iterator without an exact size hint for the "lazy" constructor)
+                "ja" if ctor == "zst" => Subject::JaZ(join_all(init.iter().map(|c| ZFut::new(*c)))),
                 "ja" if ctor == "plainout" => Subject::JaO(join_all(init.iter().map(|c| OFut::new(*c)))),
                 "tja" if ctor == "plainout" => Subject::TjaO(try_join_all(init.iter().map(|c| OTry::new(*c)))),
                 "ja" if ctor == "plain" => Subject::JaP(join_all(init.iter().map(|c| PFut::new(*c)))),
@@ -237,7 +245,7 @@ impl Runner {
                         c
                     ));
                 }
-                Some(Runner { final_wake: sc.final_wake, subj, kind, received: vec![], yielded: 0, finished: false })
+                Some(Runner { inputs: sc.init.clone(), final_wake: sc.final_wake, subj, kind, received: vec![], yielded: 0, finished: false })
             }
             Err(_) => {
                 ev(r#"{"e":"new","res":"panic","al":0}"#.to_string());
@@ -457,6 +465,10 @@ impl Runner {
                     Poll::Pending => PollOut::Pending,
                     Poll::Ready(v) => PollOut::Vec(v),
                 },
+                Subject::JaZ(q) => match Pin::new(q).poll(&mut cx) {
+                    Poll::Pending => PollOut::Pending,
+                    Poll::Ready(v) => PollOut::VecZ(v.len()),
+                },
                 Subject::JaO(q) => match Pin::new(q).poll(&mut cx) {
                     Poll::Pending => PollOut::Pending,
                     Poll::Ready(v) => PollOut::VecP(v),
@@ -532,6 +544,22 @@ impl Runner {
                 }
                 ev(format!(r#"{{"e":"vec","v":[{}],"al":{}}}"#, ids.join(","), al));
             }
+            Ok(PollOut::VecZ(len)) => {
+                ended = true;
+                let init = self.inputs.clone();
+                let mut ids = vec![];
+                // element i belongs to input i; whatever exceeds the inputs was produced by nobody
+                for i in 0..len.min(init.len() + 3) {
+                    let c = init.get(i).map(|c| *c as i64).unwrap_or(-1);
+                    if c >= 0 && with(|w| w.plain_out.get(&(c, 0)) == Some(&false)) {
+                        ids.push(c.to_string());
+                        with(|w| w.plain_out.insert((c, 0), true));
+                    } else {
+                        ids.push("-1".to_string());
+                    }
+                }
+                ev(format!(r#"{{"e":"vec","v":[{}],"al":{}}}"#, ids.join(","), al));
+            }
             Ok(PollOut::VecP(v)) => {
                 ended = true;
                 let mut ids = vec![];
@@ -600,6 +628,13 @@ impl Runner {
             }
             Op::Wdrop { c } => {
                 let wk = with(|w| w.pool.iter().position(|x| x.0 == *c).map(|i| w.pool.remove(i)));
+                if let Some(wk) = wk {
+                    let _c = InCrate::enter();
+                    drop(wk);
+                }
+            }
+            Op::Forget { c } => {
+                let wk = with(|w| w.stash.remove(c));
                 if let Some(wk) = wk {
                     let _c = InCrate::enter();
                     drop(wk);
